@@ -81,6 +81,8 @@ func specSort(ty string) string {
 		return SDyn
 	case "arr2":
 		return arrSort(SInt, arrSort(SInt, SInt))
+	case "barr2":
+		return arrSort(SInt, arrSort(SInt, SBool))
 	case "sbmap": // key set of a map[string]T
 		return arrSort(SStr, SBool)
 	case "sdmap": // values of a map[string]any
@@ -104,6 +106,18 @@ func (e *SpecEnv) lookup(name string) (Val, bool) {
 	st := e.curState()
 	if g, ok := st.ghost[name]; ok {
 		return g, true
+	}
+	if name == "alloc" && e.x != nil && e.x.entry != nil {
+		// the allocation bound (every live heap reference is <= alloc): created on first use, as allocRef does
+		if g, ok := e.x.entry.ghost["alloc"]; ok {
+			return g, true
+		}
+		c := e.c()
+		top := c.fresh("alloc0", SInt)
+		c.assumeDef(tGe(top, "0"))
+		e.x.entry.ghost["alloc"] = scInt(top)
+		st.ghost["alloc"] = scInt(top)
+		return scInt(top), true
 	}
 	x := e.x
 	if x == nil || x.pkg == nil {
@@ -373,6 +387,25 @@ func (e *SpecEnv) field(base Val, name string, n *SField) Val {
 	return nil
 }
 
+// heapKeyOf resolves x.f (x a heap reference of the current package) to the key of the heap component behind f.
+func (e *SpecEnv) heapKeyOf(n *SField) (string, bool) {
+	for tn := range refTypes {
+		stt := e.c().eng.structOfOpt(tn)
+		if stt == nil {
+			continue
+		}
+		for i := 0; i < stt.NumFields(); i++ {
+			if stt.Field(i).Name() == n.Name {
+				if e.x.pkg != nil && !strings.HasPrefix(tn, e.x.pkg.path+".") {
+					continue
+				}
+				return tn + "." + n.Name, true
+			}
+		}
+	}
+	return "", false
+}
+
 func (e *SpecEnv) evalBin(n *SBin) Val {
 	switch n.Op {
 	case "&&":
@@ -552,6 +585,28 @@ func (e *SpecEnv) call(n *SCall) Val {
 	case "key3":
 		a, b, c := e.evalInt(n.Args[0]), e.evalInt(n.Args[1]), e.evalInt(n.Args[2])
 		return scInt(app("key!3", a, b, c))
+	case "heaphas", "heapval":
+		// heaphas(x.f) / heapval(x.f) for a map-typed field f of a heap object x: the whole heap component behind the field,
+		// indexed by object reference first (heaphas(x.f)[y][k] == has(y.f, k), heapval(x.f)[y][k] == y.f[k])
+		sel, ok := n.Args[0].(*SField)
+		if !ok {
+			e.fail("%s: field selection x.f expected", n.Fn)
+		}
+		key, ok2 := e.heapKeyOf(sel)
+		if !ok2 {
+			e.fail("%s: not a heap field", n.Fn)
+		}
+		hv, ok3 := e.x.heapField(e.curState(), key).(Mp)
+		if !ok3 {
+			e.fail("%s: not a map-typed heap field", n.Fn)
+		}
+		if n.Fn == "heaphas" {
+			return Sc{hv.Has, arrSort(SInt, arrSort(hv.KS, SBool))}
+		}
+		if vs, ok := hv.Val.(Sc); ok {
+			return vs
+		}
+		e.fail("heapval: map values are not scalars")
 	case "readerin", "readerend":
 		// the byte sequence the reader r delivers: readerin(r)[0 .. readerend(r))
 		o, ok := e.eval(n.Args[0]).(Obj)
